@@ -14,7 +14,7 @@ import itertools
 from vt import core, sat
 
 PROP = 'C11'
-RULE = ('all formula trees of depth<=2 (thorough: plus arity-3 connectives and a depth-3 slice) over atoms {1,2,3,-1} with '
+RULE = ('all formula trees of depth<=2, plus every alternating binary And/Or tree of depth<=4 (nested switching variables) (thorough: plus arity-3 connectives and a depth-3 slice) over atoms {1,2,3,-1} with '
         'And/Or (arity 0..2), If, Iff, Not; x start variable in {4,10}; x 3 conversions; all 8 assignments each. '
         'States = (formula, conversion, assignment) triples decided; non-trivial = formula has both models and counter-models.')
 ASSUMPTIONS = ['pycryptosat as SAT oracle for enumerating Tseitin extensions (formulas have <=20 variables)',
@@ -62,6 +62,27 @@ def formulas(kind):
                 ['And', [['Or', []], 3]], ['Or', [['And', []], 2]], ['Not', ['Not', ['And', [1, 2]]]],
                 ['Or', [['And', [1, 2]], ['And', [2, 3]], ['And', [1, 3]]]]]
         fs = level(pool, 2)
+    elif kind == 'alt':       # every alternating And/Or tree of depth<=4 (binary), leaves cycling through the literals:
+        lits = [1, 2, 3, -1, -2, -3]   # nested switching variables, cache hits across equal subtrees
+        def shapes(d):
+            if d == 0:
+                return [None]
+            sub = [None] + shapes_cache[d - 1]
+            return [(l, r) for l in sub for r in sub]
+        shapes_cache = {}
+        for d in range(1, 5):
+            shapes_cache[d] = [x for x in shapes(d) if x is not None] if d > 1 else [(None, None)]
+        fs = []
+        for root in ('Or', 'And'):
+            for sh in shapes_cache[4]:
+                counter = [0]
+                def buildf(s, op):
+                    if s is None:
+                        counter[0] += 1
+                        return lits[(counter[0] - 1) % len(lits)]
+                    other = 'And' if op == 'Or' else 'Or'
+                    return [op, [buildf(s[0], other), buildf(s[1], other)]]
+                fs.append(buildf(sh, root))
     else:
         raise ValueError(kind)
     _CACHE[kind] = fs
@@ -70,7 +91,7 @@ def formulas(kind):
 
 def items(tier, seed):
     out = []
-    kinds = ['d2'] if tier == 'quick' else ['d2', 'a3', 'd3']
+    kinds = ['d2', 'alt'] if tier == 'quick' else ['d2', 'alt', 'a3', 'd3']
     for kind in kinds:
         n = len(formulas(kind))
         for start in (4, 10):
